@@ -12,7 +12,9 @@ Suites
   CLI        whole CompareLocales().handle(...) runs on generated project trees
              (.properties and Fluent files, entities with two or more errors)
              in a temporary directory, each without and with a merge stage at
-             three quiet levels; exit status, JSON output, and the model fed
+             three quiet levels, with the locales given explicitly, not at all
+             (taken from one or two configs that enable the same locales) or
+             with repeats, and also through compareProjects directly; exit status, JSON output, and the model fed
              the recorded event stream
 Oracle (implementation only): the expected summaries are computed from the
 event list by construction; every detail must sit under exactly the path of the
@@ -937,8 +939,34 @@ def cli_canon_observer(case, strs, o):
     return [canon_summary(case, js["summary"]), canon_json(case, js["details"], item), int(bool(o.error))]
 
 
-def cli_run(commands, real_compare, tomls, root, proj, quiet, merge):
+def cli_locales(proj, mode, rng=None):
+    """the locale arguments of a run: the project's locales (plain), none at all
+    (taken from the configs, which all enable every locale), or one repeated"""
+    if mode == "none":
+        return []
+    if mode == "repeat":
+        return list(proj["locales"]) + [proj["locales"][0]] + [proj["locales"][-1]]
+    return list(proj["locales"])
+
+
+def cli_direct(tomls, root, proj, quiet, merge, locales):
+    """compareProjects called directly on the parsed configs -> (ObserverList, JSON)"""
+    from compare_locales.compare import compareProjects
+    from compare_locales.paths import TOMLParser
+    from compare_locales import mozpath
+    stage = os.path.join(root, "stage")
+    shutil.rmtree(stage, ignore_errors=True)
+    base = mozpath.abspath(os.path.join(root, "l10n"))
+    configs = [TOMLParser().parse(p, env={"l10n_base": base}) for p in tomls]
+    with contextlib.redirect_stdout(io.StringIO()):
+        ol = compareProjects(configs, locales, base, quiet=quiet, merge_stage=stage if merge else None)
+    shutil.rmtree(stage, ignore_errors=True)
+    return ol, json.loads(json.dumps([o.toJSON() for o in ol], sort_keys=True))
+
+
+def cli_run(commands, real_compare, tomls, root, proj, quiet, merge, locales=None):
     """one CompareLocales().handle(...) run -> (exit status, JSON output, Recorder)"""
+    locales = list(proj["locales"]) if locales is None else locales
     out_json = os.path.join(root, "out.json")
     stage = os.path.join(root, "stage")
     shutil.rmtree(stage, ignore_errors=True)
@@ -951,7 +979,7 @@ def cli_run(commands, real_compare, tomls, root, proj, quiet, merge):
         try:
             rv = commands.CompareLocales().handle(
                 config_paths=tomls, l10n_base_dir=os.path.join(root, "l10n"),
-                locales=list(proj["locales"]), quiet=quiet, json=out_json,
+                locales=list(locales), quiet=quiet, json=out_json,
                 merge=stage if merge else None,
                 return_zero=proj["return_zero"])
         except SystemExit as e:        # parser.exit(2) after "FAIL: <OSError>"
@@ -972,14 +1000,15 @@ def cli_norm(items):
                              else (next(iter(x)) if isinstance(x, dict) else x)) for x in items)
 
 
-def cli_oracle(chk, proj, quiet, merge, rv, data, ol):
-    """the run against the per-file expectations known by construction"""
+def cli_oracle(chk, proj, quiet, merge, rv, data, ol, mode="plain"):
+    """the run against the per-file expectations known by construction: whatever
+    way the locales are named, every locale is compared once"""
     exp = expected_cli(proj, quiet)
-    pub = {"project": proj, "quiet": quiet, "merge": merge}
+    pub = {"project": proj, "quiet": quiet, "merge": merge, "locales": mode}
     errors = sum(c["errors"] for s, _ in exp for c in s.values())
     want_rv = 1 if errors > 0 and not proj["return_zero"] else 0
     chk.hist("cli_exit", want_rv)
-    if rv != want_rv:
+    if rv is not None and rv != want_rv:
         _fail(chk, "exit-status", pub, {"returned": rv, "errors_counted": errors,
                                         "return_zero": proj["return_zero"]})
     if len(data) != len(exp):
@@ -1019,8 +1048,9 @@ def cli_compare_merge(chk, proj, quiet, runs):
               {"plain": [o["details"] for o in d0], "merge": [o["details"] for o in d1]})
 
 
-def cli_replay_project(chk, proj, quiet):
+def cli_replay_project(chk, proj, quiet, mode="plain"):
     """re-run one generated project (plain and merge) against the oracle"""
+    mode = mode.split("/")[0]
     from compare_locales import commands
     real_compare = commands.compareProjects
     root = tempfile.mkdtemp(prefix="c10_cli_")
@@ -1028,14 +1058,17 @@ def cli_replay_project(chk, proj, quiet):
     try:
         tomls = write_project(root, proj)
         runs = {}
+        locales = cli_locales(proj, mode)
+        dol, ddata = cli_direct(tomls, root, proj, quiet, False, locales)
+        cli_oracle(chk, proj, quiet, False, None, ddata, dol, mode + "/compareProjects")
         for merge in (False, True):
-            rv, data, rec = cli_run(commands, real_compare, tomls, root, proj, quiet, merge)
+            rv, data, rec = cli_run(commands, real_compare, tomls, root, proj, quiet, merge, locales)
             ol = rec.list
             if ol is None or isinstance(rv, str):
                 _fail(chk, "cli-run-aborted", {"project": proj, "quiet": quiet, "merge": merge}, {"returned": rv})
                 return 1
             runs[merge] = (rv, data, bool(ol.error), {l: dict(c) for l, c in ol.summary.items()})
-            cli_oracle(chk, proj, quiet, merge, rv, data, ol)
+            cli_oracle(chk, proj, quiet, merge, rv, data, ol, mode)
         cli_compare_merge(chk, proj, quiet, runs)
     finally:
         commands.compareProjects = real_compare
@@ -1062,26 +1095,38 @@ def run_cli(chk, model):
                         for st in fd["l10n"].values() if st for how in st["ent"].values())
             chk.hist("cli_entities_with_2+_errors", min(multi, 3))
             quiets = [proj["quiet"]] + rng.sample([q for q in range(5) if q != proj["quiet"]], 2)
-            for quiet in quiets:
+            modes = rng.sample(["plain", "none", "repeat"], 3)
+            for quiet, mode in zip(quiets, modes):
                 runs = {}
+                locales = cli_locales(proj, mode)
+                chk.hist("cli_locale_args", mode + ("/2 configs" if len(tomls) > 1 else ""))
+                # compareProjects called directly: the same expectations, the same JSON as handle
+                dol, ddata = cli_direct(tomls, root, proj, quiet, False, locales)
+                chk.count(("cli-direct", json.dumps(proj, sort_keys=True), quiet, mode))
+                cli_oracle(chk, proj, quiet, False, None, ddata, dol, mode + "/compareProjects")
                 for merge in (False, True):
-                    rv, data, rec = cli_run(commands, real_compare, tomls, root, proj, quiet, merge)
+                    rv, data, rec = cli_run(commands, real_compare, tomls, root, proj, quiet, merge, locales)
                     ol = rec.list
+                    if not merge and not isinstance(rv, str) and data != ddata:
+                        _fail(chk, "cli-direct-differs",
+                              {"project": proj, "quiet": quiet, "merge": False, "locales": mode},
+                              {"handle": data, "compareProjects": ddata})
                     if ol is None or isinstance(rv, str):
-                        _fail(chk, "cli-run-aborted", {"project": proj, "quiet": quiet, "merge": merge},
+                        _fail(chk, "cli-run-aborted",
+                              {"project": proj, "quiet": quiet, "merge": merge, "locales": mode},
                               {"returned": rv})
                         runs = None
                         break
                     if merge:
                         chk.hist("cli_staged_files", min(rec.staged, 5))
                     runs[merge] = (rv, data, bool(ol.error), {l: dict(c) for l, c in ol.summary.items()})
-                    chk.count(("cli", json.dumps(proj, sort_keys=True), quiet, merge))
+                    chk.count(("cli", json.dumps(proj, sort_keys=True), quiet, merge, mode))
                     chk.hist("cli_quiet", quiet)
                     chk.hist("cli_merge", merge)
-                    cli_oracle(chk, proj, quiet, merge, rv, data, ol)
+                    cli_oracle(chk, proj, quiet, merge, rv, data, ol, mode)
                     # ---- model on the recorded stream ----------------------
                     case, strs, wire = cli_model_case(rec, quiet)
-                    cases.append({"project": proj, "quiet": quiet, "merge": merge})
+                    cases.append({"project": proj, "quiet": quiet, "merge": merge, "locales": mode})
                     wires.append(wire)
                     impl.append([cli_canon_observer(case, strs, ol),
                                  [cli_canon_observer(case, strs, o) for o in ol.observers],
@@ -1149,7 +1194,8 @@ def replay(chk, path):
         print("failure", f["signature"])
         c = f["case"]
         if "project" in c:
-            rc |= cli_replay_project(chk, c["project"], c.get("quiet", c["project"]["quiet"]))
+            rc |= cli_replay_project(chk, c["project"], c.get("quiet", c["project"]["quiet"]),
+                                     c.get("locales", "plain"))
         else:
             rc |= replay_case(chk, c, model)
     for d in data.get("disagreements", []):
